@@ -166,7 +166,8 @@ def make_queue(spec):
     import time as _time
     from tatsu.packetz.queue import PacketzQueue
     known = tolerated('C19')
-    payloads = ['p0', {'k': ['aaaa~~', 1]}, 'x' * 7]
+    # payload set 1: records that END in multi-byte text (2- and 3-byte UTF-8), read by an incremental reader (seed C19-6: an offset kept in characters)
+    payloads = [['p0', {'k': ['aaaa~~', 1]}, 'x' * 7], ['\u00e1\u00e9\u00ed\u00f3\u00fa', {'name': '\u65e5\u672c\u8a9e'}, 'x\u00e9' * 3]][spec.get('pset', 0)]
     DELTAS = [1, 2, 99_999_999, 100_000_000, 100_000_001, 200_000_000, 3]
 
     def native(order, cut, dsel):
@@ -273,6 +274,8 @@ def plan(tier, seed):
     maxcut = 40 if tier == 'quick' else 90
     obs.append(Ob(name='C_queue', factory='vt.props.c19:make_queue', spec={'maxcut': maxcut},
                   params=[('order', 0, 8), ('cut', 0, maxcut + 1), ('dsel', 0, 7)], budget=1200, group='C', require_tags=('partial-write',)))
+    obs.append(Ob(name='C_queue_multibyte', factory='vt.props.c19:make_queue', spec={'maxcut': maxcut, 'pset': 1},
+                  params=[('order', 0, 8), ('cut', 0, maxcut + 1), ('dsel', 0, 2)], budget=1200, group='C', require_tags=('partial-write',)))
     return {
         'obligations': obs,
         'level': 'other',
